@@ -229,39 +229,61 @@ theorem l2_roundtrip_standard_full_false : ¬ l2_roundtrip_standard_full := by
     (by decide) (by decide) (by decide)] at h1
   cases h1
 
-/-- Permitted compressed entries whose decoded length is below the cluster size
-    round-trip exactly. -/
+/-- Every permitted compressed entry round-trips exactly; no hypothesis on the
+    decoded length is needed.  (`Spec.Permitted` does not bound the length by the
+    cluster size: the sector field has `cb-8` bits, so `Spec.compLength` ranges up
+    to `2^(cb+1)`, see `l2_roundtrip_compressed_maxlen_ok`.  What `from_mapping`
+    checks is that the sector count fits its field, which holds for everything
+    `into_mapping` decodes.) -/
 theorem l2_roundtrip_compressed (cb : Nat) (h9 : 9 ≤ cb) (h21 : cb ≤ 21) (hasBack : Bool)
-    (gcOff : Nat) (e : E64) (hp : Spec.Permitted cb e) (hc : Spec.compressed e = true)
-    (hlen : Spec.compLength cb e < 2^cb) :
+    (gcOff : Nat) (e : E64) (hp : Spec.Permitted cb e) (hc : Spec.compressed e = true) :
     L2.fromMapping cb (L2.intoMapping cb hasBack gcOff e) = .ok e := by
   unfold Spec.Permitted at hp
   rw [hc] at hp
   simp only [if_true] at hp
   exact L2.roundtrip_compressed cb h9 h21 hasBack gcOff e (by rw [L2.isCompressed_eq]; exact hc)
-    (by rw [L2.isCopied_eq]; exact hp.1) hp.2 _ _ (l2_decode_compressed cb e hc).1 hlen
+    (by rw [L2.isCopied_eq]; exact hp.1) hp.2 _ _ (l2_decode_compressed cb e hc).1
 
-/-- FINDING (general form): a compressed entry whose decoded length is ≥ the
-    cluster size (the format allows up to two clusters' worth of sectors) makes
-    `from_mapping` hit `assert!(length < cluster_size)`. -/
-theorem l2_roundtrip_compressed_toolong_panics (cb : Nat) (hasBack : Bool) (gcOff : Nat) (e : E64)
-    (hc : Spec.compressed e = true) (hlen : 2^cb ≤ Spec.compLength cb e) :
-    L2.fromMapping cb (L2.intoMapping cb hasBack gcOff e)
-      = .panic "l2.rs:from_mapping:assert-length" :=
-  L2.roundtrip_compressed_panics cb hasBack gcOff e (by rw [L2.isCompressed_eq]; exact hc) _ _
-    (l2_decode_compressed cb e hc).1 hlen
+/-- `from_mapping` on a compressed mapping with `len ≥ 1` and an in-range offset
+    hits `assert!(sectors < 1 << (cluster_bits - 8))` exactly when the sector
+    count `(len - 1 + off % 512) / 512` does not fit its `cb-8` bit field.  (No
+    decoded entry gets there, see `l2_roundtrip_compressed`.) -/
+theorem l2_fromMapping_compressed_sectors_panics_iff (cb off len : Nat)
+    (hoff : off < 2^56) (hlen1 : 1 ≤ len) :
+    L2.fromMapping cb { source := .compressed, clusterOffset := some off,
+                        compressedLength := some len, copied := false }
+        = .panic "l2.rs:from_mapping:assert-sectors"
+      ↔ 2^(cb - 8) ≤ (len - 1 + off % 512) / 512 :=
+  L2.fromMapping_compressed_sectors_panics_iff cb off len
+    (by simp only [Nat.reducePow] at hoff; omega) hlen1
 
-/-- FINDING (witness): cb = 16, compressed, host offset 0, 127 additional sectors:
-    a spec-permitted entry whose decoded length is exactly one cluster (65536). -/
-theorem l2_roundtrip_compressed_fullsize_panics :
+/-- Witness: cb = 16, compressed, host offset 0, 127 additional sectors: a
+    spec-permitted entry whose decoded length is exactly one cluster (65536).  It
+    round-trips.  (It used to panic in `from_mapping` on
+    `assert!(length < cluster_size)` before the repair recorded in
+    /verif/known_findings.jsonl.) -/
+theorem l2_roundtrip_compressed_fullsize_ok :
     Spec.Permitted 16 0x5fc0000000000000#64 ∧ Spec.compLength 16 0x5fc0000000000000#64 = 2^16 ∧
     ∀ hasBack gcOff, L2.fromMapping 16 (L2.intoMapping 16 hasBack gcOff 0x5fc0000000000000#64)
-      = .panic "l2.rs:from_mapping:assert-length" :=
+      = .ok 0x5fc0000000000000#64 :=
   ⟨by decide, by decide, fun hasBack gcOff =>
-    l2_roundtrip_compressed_toolong_panics 16 hasBack gcOff _ (by decide) (by decide)⟩
+    l2_roundtrip_compressed 16 (by decide) (by decide) hasBack gcOff _ (by decide) (by decide)⟩
+
+/-- Witness: cb = 16, host offset 0, 255 additional sectors (the whole 8-bit
+    field): a spec-permitted entry whose decoded length is two clusters (131072),
+    so the length is not bounded by the cluster size.  It round-trips too. -/
+theorem l2_roundtrip_compressed_maxlen_ok :
+    Spec.Permitted 16 0x7fc0000000000000#64 ∧ Spec.compLength 16 0x7fc0000000000000#64 = 2^17 ∧
+    ∀ hasBack gcOff, L2.fromMapping 16 (L2.intoMapping 16 hasBack gcOff 0x7fc0000000000000#64)
+      = .ok 0x7fc0000000000000#64 :=
+  ⟨by decide, by decide, fun hasBack gcOff =>
+    l2_roundtrip_compressed 16 (by decide) (by decide) hasBack gcOff _ (by decide) (by decide)⟩
 
 /-- Well-formed mappings: exactly the shapes `into_mapping` can produce and
-    `from_mapping` accepts (see `l2_encode_decode_exact`). -/
+    `from_mapping` accepts (see `l2_encode_decode_exact`).  Compressed: the length
+    is positive, ends on a sector boundary of the host file, and its sector count
+    fits the `cb-8` bit field (so `len ≤ 2^(cb+1) - off % 512`; it may exceed the
+    cluster size). -/
 def WF (cb : Nat) (hasBack : Bool) (gcOff : Nat) (m : Mapping) : Prop :=
   match m.source with
   | .dataFile => m.compressedLength = none ∧
@@ -275,7 +297,8 @@ def WF (cb : Nat) (hasBack : Bool) (gcOff : Nat) (m : Mapping) : Prop :=
       m.compressedLength = none ∧ m.copied = false
   | .compressed => m.copied = false ∧
       ∃ off len, m.clusterOffset = some off ∧ m.compressedLength = some len ∧
-        off < 2^56 ∧ off < 2^(Spec.x cb) ∧ 1 ≤ len ∧ len < 2^cb ∧ (len + off % 512) % 512 = 0
+        off < 2^56 ∧ off < 2^(Spec.x cb) ∧ 1 ≤ len ∧ (len - 1 + off % 512) / 512 < 2^(cb - 8) ∧
+        (len + off % 512) % 512 = 0
 
 /-- decode ∘ encode = id on well-formed mappings (and encode succeeds). -/
 theorem l2_encode_decode (cb : Nat) (h9 : 9 ≤ cb) (h21 : cb ≤ 21) (hasBack : Bool) (gcOff : Nat)
@@ -383,9 +406,9 @@ theorem l2_encode_decode_exact (cb : Nat) (h9 : 9 ≤ cb) (h21 : cb ≤ 21) (has
   · obtain ⟨off, len, hm, h56, hx, h1, hcons⟩ := L2.intoMapping_compressed_shape cb hasBack gcOff v hc
     rw [hm] at hf ⊢
     refine ⟨rfl, off, len, rfl, rfl, h56, hx, h1, ?_, hcons⟩
-    apply Classical.byContradiction; intro hlen
+    apply Classical.byContradiction; intro hsec
     rw [L2.fromMapping_compressed, if_neg (by simp only [Nat.reducePow] at h56; omega),
-      if_pos hlen] at hf
+      if_neg (by omega), if_pos hsec] at hf
     cases hf
 
 /-- the form asked for: whatever `from_mapping` returns decodes back to `m`. -/
@@ -441,7 +464,7 @@ example : L2.fromMapping 16 (L2.intoMapping 16 false 0 0x8000000000050001#64)
     = .ok 0x8000000000050001#64 :=
   l2_roundtrip_standard_partial 16 false 0 _ (by decide) (by decide) (by decide)
 /-- compressed cluster, cb = 16 (x = 54): offset 0x50123, 3 additional sectors,
-    decoded length 4*512 - 0x123 = 1757 < 65536. -/
+    decoded length 4*512 - 0x123 = 1757. -/
 example : Spec.compressed 0x40c0000000050123#64 = true ∧ Spec.Permitted 16 0x40c0000000050123#64 ∧
     Spec.compOffset 16 0x40c0000000050123#64 = 0x50123 ∧
     Spec.compSectors 16 0x40c0000000050123#64 = 3 ∧
@@ -450,13 +473,25 @@ example : L2.compressedRange 16 0x40c0000000050123#64 = some (0x50123, 1757) ∧
     L2.allocation 16 0x40c0000000050123#64 = some (0x50000, 1) := by decide
 example : L2.fromMapping 16 (L2.intoMapping 16 false 0 0x40c0000000050123#64)
     = .ok 0x40c0000000050123#64 :=
-  l2_roundtrip_compressed 16 (by decide) (by decide) false 0 _ (by decide) (by decide) (by decide)
+  l2_roundtrip_compressed 16 (by decide) (by decide) false 0 _ (by decide) (by decide)
 /-- a well-formed compressed mapping (hypothesis of `l2_encode_decode`) -/
 def mapEx : Mapping :=
   { source := .compressed, clusterOffset := some 0x50123, compressedLength := some 1757,
     copied := false }
 example : WF 16 false 0 mapEx :=
   ⟨rfl, 0x50123, 1757, rfl, rfl, by decide, by decide, by decide, by decide, by decide⟩
+/-- a well-formed compressed mapping longer than a cluster (cb = 16: 131072 bytes at
+    a sector-aligned offset, 256 sectors) -/
+def mapExLong : Mapping :=
+  { source := .compressed, clusterOffset := some 0x50200, compressedLength := some 0x20000,
+    copied := false }
+example : WF 16 false 0 mapExLong :=
+  ⟨rfl, 0x50200, 0x20000, rfl, rfl, by decide, by decide, by decide, by decide, by decide⟩
+/-- one byte more needs 257 sectors: `from_mapping` panics (both sides of
+    `l2_fromMapping_compressed_sectors_panics_iff`) -/
+example : L2.fromMapping 16 ⟨.compressed, some 0x50200, some 0x20001, false⟩
+    = .panic "l2.rs:from_mapping:assert-sectors" :=
+  (l2_fromMapping_compressed_sectors_panics_iff 16 0x50200 0x20001 (by decide) (by decide)).2 (by decide)
 def mapExB : Mapping :=
   { source := .backing, clusterOffset := some 0x30000, compressedLength := none, copied := false }
 example : WF 16 true 0x30000 mapExB := ⟨rfl, rfl, by decide, rfl, rfl⟩
@@ -718,7 +753,7 @@ theorem info_geometry_of_params {h : HdrGeo} {p : Params} {i : Info}
     (hro : h.refcountOrder ≤ 6) (hbs : 3 ≤ p.bsBits) :
     Geom i ∧ i.cb = h.clusterBits ∧ i.ro = h.refcountOrder ∧
       3 ≤ i.l2SliceBits ∧ 3 ≤ i.rbSliceBits ∧
-      (p.rbCache ≠ none → i.rbSliceBits ≤ i.cb) ∧ (p.rbCache = none → i.rbSliceBits = 12) := by
+      i.rbSliceBits ≤ i.cb ∧ (p.rbCache = none → i.rbSliceBits = min 12 i.cb) := by
   obtain ⟨h3, h64, hro', l2sb, l2cnt, rbsb, rbcnt, hg1, hg2, hle, hrb32, hi⟩ := Info.new_ok hn
   have g1 := (cacheGeometry_ok hg1).1
   have g2 := (cacheGeometry_ok hg2).1
@@ -727,38 +762,25 @@ theorem info_geometry_of_params {h : HdrGeo} {p : Params} {i : Info}
   have hro2 : i.ro = h.refcountOrder := by subst hi; rfl
   obtain ⟨hG, e1, e2, _⟩ := info_geometry hn (by omega) hl2 (by omega)
   refine ⟨hG, e1, e2, hl2, hrb, ?_, ?_⟩
-  · intro hne; subst hi; dsimp only
-    rcases g2 with ⟨hnone, _⟩ | ⟨_, hle⟩
-    · exact absurd hnone hne
+  · subst hi; dsimp only
+    rcases g2 with ⟨_, hb⟩ | ⟨_, hle⟩
+    · omega
     · exact hle
   · intro hnone; subst hi; dsimp only
     rw [hnone] at hg2
     simp only [cacheGeometry, Outcome.ok.injEq, Prod.mk.injEq] at hg2
     exact hg2.1.symm
 
-/-- With the default L2 cache parameter (`None`) the slice size is 2^12
-    regardless of the cluster size, so for cluster_bits < 12 `Qcow2Info::new` never
-    succeeds ... -/
-theorem info_new_default_l2_small_cluster_fails {h : HdrGeo} {p : Params}
-    (hp : p.l2Cache = none) (hcb : h.clusterBits < 12) : ∀ i, Info.new h p ≠ .ok i := by
-  intro i hn
-  obtain ⟨_, _, _, l2sb, l2cnt, _, _, hg1, _, hle, _, _⟩ := Info.new_ok hn
+/-- With the default cache parameters (`None`) the slice size is
+    `2^min(12, cluster_bits)`: never larger than a cluster.  (Before the repair
+    recorded in known_findings.jsonl it was 2^12 regardless of the cluster size and
+    `Qcow2Info::new` panicked for cluster_bits < 12.) -/
+theorem info_new_default_l2_slice {h : HdrGeo} {p : Params} {i : Info}
+    (hp : p.l2Cache = none) (hn : Info.new h p = .ok i) : i.l2SliceBits = min 12 h.clusterBits := by
+  obtain ⟨_, _, _, l2sb, l2cnt, _, _, hg1, _, hle, _, hi⟩ := Info.new_ok hn
   rw [hp] at hg1
   simp only [cacheGeometry, Outcome.ok.injEq, Prod.mk.injEq] at hg1
-  omega
-
-/-- ... and with fully default cache parameters it panics on the u8 subtraction
-    `cluster_shift - l2_slice_bits` (dev profile). -/
-theorem info_new_default_small_cluster_panics {h : HdrGeo} {p : Params}
-    (hl2 : p.l2Cache = none) (hrb : p.rbCache = none) (hro : ¬ (p.backing ∧ ¬ p.readOnly))
-    (hcb3 : 3 ≤ h.clusterBits) (hcb : h.clusterBits < 12) (hord : h.refcountOrder < 256) :
-    Info.new h p = .panic "info.rs:new:cluster_shift-l2_slice_bits" := by
-  unfold Info.new
-  dsimp only
-  rw [if_neg hro, if_neg (by omega), if_neg (by omega), if_neg (by omega), if_neg (by omega),
-    hl2, hrb]
-  simp only [cacheGeometry, Outcome.bind_ok]
-  rw [if_pos (by omega)]
+  subst hi; dsimp only; exact hg1.1.symm
 
 /-- `split_recompose`: the guest-offset split is a bijective decomposition. -/
 theorem split_recompose {i : Info} (g : Geom i) (off : Nat) :
@@ -841,13 +863,6 @@ theorem rb_first_slice_key_partial {i : Info} (g : Geom i) (hsl : i.rbSliceBits 
   rw [← g.rbIndexShift_eq, ← g.rbSliceIndexShift_eq]
   exact Arith.first_slice_key k i.rbIndexShift i.cb i.rbSliceIndexShift hle
 
-/-- the law under the geometry equations alone; false, see
-    `rb_first_slice_key_full_false` (placed after `infoSmall`) -/
-def rb_first_slice_key_full : Prop :=
-  ∀ (i : Info), Geom i → ∀ k,
-    rbSliceKeyOfRtOff i (8 * k) = Host.rbSliceKey i (k * i.rbEntries * 2^i.cb) ∧
-    rbSliceKeyOfRtOff i (8 * k) = k * (i.rbEntries / i.rbSliceEntries)
-
 /-- First-slice inverse law for L2 tables (here `l2_slice_bits ≤ cluster_bits`
     is part of `Geom`, since `Qcow2Info::new` enforces it). -/
 theorem l2_first_slice_key {i : Info} (g : Geom i) (k : Nat) :
@@ -889,42 +904,25 @@ example : (Split.l1Index infoEx 0x123456789, Split.l2Index infoEx 0x123456789,
            Split.inClusterOffset infoEx 0x123456789) = (9, 837, 26505) := by decide
 example : (Host.rtIndex infoEx 0x123456789, Host.rbIndex infoEx 0x123456789) = (2, 9029) := by decide
 
-/-- 512-byte clusters with an explicit L2 slice size but the default refblock
-    cache parameter. -/
+/-- 512-byte clusters with the default refblock cache parameter: the slice is
+    clipped to the cluster size (the `rb_slice_bits > cluster_bits` defect found
+    with this very input is repaired, see known_findings.jsonl). -/
 def hdrSmall : HdrGeo := { clusterBits := 9, refcountOrder := 4, size := 2^30, hasBackingName := false }
 def prmSmall : Params :=
   { bsBits := 9, rbCache := none, l2Cache := some (9, 4096), readOnly := false, backing := false }
-def infoSmall : Info :=
-  { bsb := 9, cb := 9, l2IndexShift := 6, l2SliceIndexShift := 6, l2SliceBits := 9, ro := 4,
-    rbSliceBits := 12, rbIndexShift := 8, rbSliceIndexShift := 11, l2SliceEntries := 64,
-    l2CacheCnt := 8, rbCacheCnt := 64, vsize := 1073741824, readOnly := false, hasBack := false,
-    isBack := false }
 
-/-- FINDING: `Qcow2Info::new` accepts a refblock slice (2^12 bytes, the default)
-    larger than the cluster (2^9 bytes): only the L2 slice size is checked against
-    the cluster size.  The geometry equations still hold, but a "slice" then spans
-    8 refblocks and the first-slice law `rb_first_slice_key_partial` fails (k = 8). -/
-theorem info_new_rb_slice_exceeds_cluster :
-    Info.new hdrSmall prmSmall = .ok infoSmall ∧ infoSmall.cb < infoSmall.rbSliceBits ∧
-    infoSmall.rbEntries < infoSmall.rbSliceEntries ∧
-    rbSliceKeyOfRtOff infoSmall (8 * 8) ≠ 8 * (infoSmall.rbEntries / infoSmall.rbSliceEntries) :=
-  ⟨by rfl, by decide, by decide, by decide⟩
+theorem info_new_small_default_rb :
+    ∃ i, Info.new hdrSmall prmSmall = .ok i ∧ i.rbSliceBits = 9 ∧ i.rbSliceEntries ≤ i.rbEntries :=
+  ⟨_, rfl, by decide, by decide⟩
 
-example : Geom infoSmall :=
-  (info_geometry_of_params (i := infoSmall) info_new_rb_slice_exceeds_cluster.1
-    (by decide) (by decide) (by decide) (by decide)).1
-
-theorem rb_first_slice_key_full_false : ¬ rb_first_slice_key_full := by
-  intro h
-  have g : Geom infoSmall :=
-    (info_geometry_of_params (i := infoSmall) info_new_rb_slice_exceeds_cluster.1
-      (by decide) (by decide) (by decide) (by decide)).1
-  exact info_new_rb_slice_exceeds_cluster.2.2.2 (h infoSmall g 8).2
-
-/-- hypotheses of `info_new_default_small_cluster_panics` are satisfiable. -/
-example : Info.new { hdrSmall with clusterBits := 11 } prmEx
-    = .panic "info.rs:new:cluster_shift-l2_slice_bits" :=
-  info_new_default_small_cluster_panics rfl rfl (by decide) (by decide) (by decide) (by decide)
+/-- the first-slice law holds for every geometry `Qcow2Info::new` can produce -/
+theorem rb_first_slice_key_of_new {h : HdrGeo} {p : Params} {i : Info}
+    (hn : Info.new h p = .ok i) (hcb9 : 9 ≤ h.clusterBits) (hcb21 : h.clusterBits ≤ 21)
+    (hro : h.refcountOrder ≤ 6) (hbs : 3 ≤ p.bsBits) (k : Nat) :
+    rbSliceKeyOfRtOff i (8 * k) = Host.rbSliceKey i (k * i.rbEntries * 2^i.cb) ∧
+    rbSliceKeyOfRtOff i (8 * k) = k * (i.rbEntries / i.rbSliceEntries) := by
+  obtain ⟨g, _, _, _, _, hle, _⟩ := info_geometry_of_params hn hcb9 hcb21 hro hbs
+  exact rb_first_slice_key_partial g hle k
 
 end Qv.Props.C15
 
